@@ -20,6 +20,7 @@ SHRINK = {"quick": True, "thorough": True}
 ASSUMPTIONS = ["the empty TT (TT(None)) is outside the scope", "a library exception raised by an operation is recorded and "
                "belongs to C03-C14; the objects existing afterwards must still be well formed"]
 MODE = "wellformed"
+FUZZ = {"thorough": 24000}     # coverage-guided add-on stage (vt/fuzz.py): op programs decoded from libFuzzer bytes
 
 WEIGHTED = []
 for name in machine.OPS:
@@ -118,3 +119,21 @@ def enumerate_cases():
         for o1, o2 in itertools.product(alphabet, repeat=2):
             cases.append({"init": init, "ops": [o1, o2]})
     return cases
+
+
+def from_bytes(fdp):
+    """Structured decoding of a libFuzzer byte string into a history program (coverage-guided stage, vt/fuzz.py)."""
+    ci = fdp.ConsumeIntInRange
+
+    def spec(dmin, dmax, sizes, rmax, ttm):
+        d = ci(dmin, dmax)
+        N = [sizes[ci(0, len(sizes) - 1)] for _ in range(d)]
+        sp = {"N": N, "R": [1] + [ci(1, rmax) for _ in range(d - 1)] + [1], "dt": "f64", "mode": "gauss", "seed": ci(0, 1000), "amp": 2}
+        if ttm:
+            sp["M"] = [sizes[ci(0, len(sizes) - 1)] for _ in range(d)]
+        return sp
+    init = [spec(1, 4, (1, 2, 3, 4), 3, False), spec(1, 3, (1, 2, 3), 2, True), spec(2, 4, (1, 1, 2, 3), 3, False)]
+    n = ci(1, 12)
+    ops = [{"op": WEIGHTED[ci(0, len(WEIGHTED) - 1)], "a": ci(0, 15), "b": ci(0, 15), "c": ci(0, 15), "p": ci(0, 63),
+            "seed": ci(0, 1000)} for _ in range(n)]
+    return {"init": init, "ops": ops}
